@@ -110,7 +110,7 @@ IMPL('impl<B> Inner<B>', raw='''
             && post.await_100_continue == self.await_100_continue && post.status == self.status && post.location == self.location
     }
 ''')
-FN('is_redirect', props=['C15', 'C09'], ret='r', ensures=[('C15.redirect_iff_3xx_not_304', 'r == is_redirect_status(self.status)')])
+FN('is_redirect', props=['C15', 'C09'], ret='r', ensures=[('C09/C15.redirect_iff_3xx_not_304', 'r == is_redirect_status(self.status)')])
 END()
 
 IMPL('impl CloseReason')
@@ -276,7 +276,7 @@ FN('write', props=['C03', 'C04', 'C18', 'C19', 'C01', 'C09'], ret='r',
    requires=[('C09.wf', 'old(self).inner.wf_send_body()')],
    ensures=[
        ('C09.wf_preserved', 'final(self).inner.wf_send_body() && old(self).inner.same_facts(&final(self).inner) && final(output).len() == old(output).len() && final(self).inner.call.req() == old(self).inner.call.req()'),
-       ('C03/C04.body_bytes', 'post_write_body(&old(self).inner.call->WithBody_0, &final(self).inner.call->WithBody_0, input@, old(output).len() as nat, |n: nat| final(output)@.subrange(0, n as int), r)'),
+       ('C03/C04/C18/C19.body_bytes', 'post_write_body(&old(self).inner.call->WithBody_0, &final(self).inner.call->WithBody_0, input@, old(output).len() as nat, |n: nat| final(output)@.subrange(0, n as int), r)'),
    ])
 FN('consume_direct_write', props=['C04', 'C09'], ret='r',
    requires=[('C09.wf', 'old(self).inner.wf_send_body()')],
@@ -390,7 +390,7 @@ FN('body_mode', props=['C06', 'C08'], ret='r',
             BodyReader::Chunked(_) => r == BodyMode::Chunked, BodyReader::CloseDelimited => r == BodyMode::CloseDelimited }''')])
 FN('can_proceed', props=['C09', 'C07', 'C08'], ret='r',
    requires=[('C09.wf', 'self.inner.wf_received()')],
-   ensures=[('C08.can_proceed_iff_complete_or_close_delimited', '''r == match self.inner.bstate().reader->Some_0 { BodyReader::NoBody => true, BodyReader::LengthDelimited(v) => v == 0,
+   ensures=[('C07/C08/C09.can_proceed_iff_complete_or_close_delimited', '''r == match self.inner.bstate().reader->Some_0 { BodyReader::NoBody => true, BodyReader::LengthDelimited(v) => v == 0,
             BodyReader::Chunked(d) => d is Ended, BodyReader::CloseDelimited => true }''')])
 FN('proceed', props=['C09', 'C15'], ret='r',
    requires=[('C09.wf', 'self.inner.wf_received()')],
